@@ -951,6 +951,11 @@ class Gen:
             k = "fail"
         self.features.add(k)
         if k == "fail":
+            if self.p["time_advance"] and self.chance(30):
+                # the step moves <t> (or <dt>) and then fails: what a failed step leaves behind counts for the
+                # end-time test of run()
+                self.features.add("advance_then_fail")
+                return self.op_time_advance() + [["fail"]]
             return [["fail"]]
         if k == "switch":
             return [["switch", self.choice(self.phase_names)]]
